@@ -116,13 +116,21 @@ pub async fn run_session(context: SessionContext) {
                 timeout_ms: command.timeout_ms,
             };
             if requires_workspace_lock(&invocation.name) {
+                #[cfg(rip_verif)]
+                rip_kernel::verif::point("ws.tool.before_acquire");
                 let _guard = workspace_lock.acquire().await;
+                #[cfg(rip_verif)]
+                rip_kernel::verif::point("ws.tool.acquired");
                 let tool_events = tool_runner
                     .run(&runtime_session_id, &mut seq, invocation)
                     .await;
+                #[cfg(rip_verif)]
+                rip_kernel::verif::point("ws.tool.ran");
                 let side_effects = summarize_continuity_tool_side_effects(&tool_events);
                 session.set_seq(seq);
                 emit_events(tool_events, &sender, &events, &event_log).await;
+                #[cfg(rip_verif)]
+                rip_kernel::verif::point("ws.tool.emitted");
                 if let (Some(link), Some(side_effects)) = (continuity_run.as_ref(), side_effects) {
                     let _ = continuities.append_tool_side_effects(
                         link,
@@ -130,17 +138,27 @@ pub async fn run_session(context: SessionContext) {
                         side_effects,
                     );
                 }
+                #[cfg(rip_verif)]
+                rip_kernel::verif::point("ws.tool.appended");
             } else {
                 let tool_events = tool_runner
                     .run(&runtime_session_id, &mut seq, invocation)
                     .await;
+                #[cfg(rip_verif)]
+                rip_kernel::verif::point("ws.ro.ran");
                 session.set_seq(seq);
                 emit_events(tool_events, &sender, &events, &event_log).await;
+                #[cfg(rip_verif)]
+                rip_kernel::verif::point("ws.ro.emitted");
             }
         }
         InputAction::Checkpoint(command) => {
             let mut seq = session.seq();
+            #[cfg(rip_verif)]
+            rip_kernel::verif::point("ws.ckpt.before_acquire");
             let _guard = workspace_lock.acquire().await;
+            #[cfg(rip_verif)]
+            rip_kernel::verif::point("ws.ckpt.acquired");
             let checkpoint_events = match command {
                 CheckpointCommand::Create { label, files } => tool_runner.create_checkpoint(
                     &runtime_session_id,
@@ -152,8 +170,12 @@ pub async fn run_session(context: SessionContext) {
                     tool_runner.rewind_checkpoint(&runtime_session_id, &mut seq, &id)
                 }
             };
+            #[cfg(rip_verif)]
+            rip_kernel::verif::point("ws.ckpt.ran");
             session.set_seq(seq);
             emit_events(checkpoint_events, &sender, &events, &event_log).await;
+            #[cfg(rip_verif)]
+            rip_kernel::verif::point("ws.ckpt.emitted");
         }
         InputAction::Prompt => {
             if let Some(config) = &openresponses {
@@ -1331,19 +1353,33 @@ async fn run_openresponses_agent_loop(
                 sink.emit_all(tool_events).await;
                 output_value
             } else if requires_workspace_lock(&invocation.name) {
+                #[cfg(rip_verif)]
+                rip_kernel::verif::point("ws.loop.before_acquire");
                 let _guard = workspace_lock.acquire().await;
+                #[cfg(rip_verif)]
+                rip_kernel::verif::point("ws.loop.acquired");
                 let tool_events = tool_runner.run(session_id, seq, invocation).await;
+                #[cfg(rip_verif)]
+                rip_kernel::verif::point("ws.loop.ran");
                 let side_effects = summarize_continuity_tool_side_effects(&tool_events);
                 let output_value = tool_events_to_function_call_output(&call.name, &tool_events);
                 sink.emit_all(tool_events).await;
+                #[cfg(rip_verif)]
+                rip_kernel::verif::point("ws.loop.emitted");
                 if let (Some(link), Some(side_effects)) = (continuity_run, side_effects) {
                     let _ = continuities.append_tool_side_effects(link, session_id, side_effects);
                 }
+                #[cfg(rip_verif)]
+                rip_kernel::verif::point("ws.loop.appended");
                 output_value
             } else {
                 let tool_events = tool_runner.run(session_id, seq, invocation).await;
+                #[cfg(rip_verif)]
+                rip_kernel::verif::point("ws.loopro.ran");
                 let output_value = tool_events_to_function_call_output(&call.name, &tool_events);
                 sink.emit_all(tool_events).await;
+                #[cfg(rip_verif)]
+                rip_kernel::verif::point("ws.loopro.emitted");
                 output_value
             };
             let output_json = serde_json::to_string(&output_value)
